@@ -246,11 +246,18 @@ pub fn run_c14(rc: &RunCtx) -> Outcome {
     let mut disagreements = Vec::new();
     let mut evaluations = 0u64;
     let mut nontrivial = std::collections::BTreeSet::new();
+    let mut unspecified_rejected = 0u64;
     for mp in MACRO_PROFILES {
         let dv = check_decls(rc, "c14decl", &decl_items, mp);
         let mut accepted_items = Vec::new();
         for it in &items {
             let errs = dv.get(&it.id).cloned().unwrap_or_default();
+            if !errs.is_empty() && !layout_verdict(&layouts[it.id]).is_valid() {
+                // a deliberately self-overlapping list: whether it is accepted at all is left open by the
+                // statements; a macro that rejects it outright offers no builder either
+                unspecified_rejected += 1;
+                continue;
+            }
             if !errs.is_empty() {
                 disagreements.push(Disagreement {
                     sig: format!("declaration-rejected/{}", base_class(layouts[it.id].base_bits)),
@@ -322,6 +329,7 @@ pub fn run_c14(rc: &RunCtx) -> Outcome {
         "exhaustive": false,
         "disagreements_checked": checked,
         "further_disagreements_with_an_already_confirmed_signature": dups,
+        "self_overlapping_declarations_rejected_outright": unspecified_rejected,
         "builder_expected": expected.iter().filter(|e| **e).count(),
         "builder_not_expected": expected.iter().filter(|e| !**e).count(),
         "macro_profiles": MACRO_PROFILES,
